@@ -702,6 +702,7 @@ const (
 //
 //	ttl > 0            -> (expTTLPositive, falseSideSafe)
 //	since(CreatedAt) > ttl, now.Sub(CreatedAt) > ttl (also >=) -> (expExpired, falseSideSafe)
+//
 // c12CG is the call graph (set by c12Expiry) used to resolve a `now`
 // parameter to what its callers pass.
 var c12CG *callgraph.Graph
